@@ -40,6 +40,14 @@ CHECKS = {
              'session stepped to the end must show the same stack; script texts around the former 1023-character stdin limit are included.',
         note='Exception-class failures only require exit 1 and an error report. Process deadlines count as inconclusive. Two genuine defects were repaired by fix: commits.',
         design='5/C08'),
+    'C09': dict(
+        technique='property-based testing (Hypothesis): model-based exactness of flag lists against the real binary (pty listing + behavioural probes) and a metamorphic monotonicity relation over flag-set chains',
+        text='D1: generated +/- lists over the 21 names are applied to a model of the standard set and compared with the "resulting flags" listing of `btcdeb -v -f...` on ptys, with --default-flags, and with '
+             'eleven behavioural probes (a script whose non-interactive outcome depends on exactly one flag); 22 malformed lists incl. over-long names must be rejected. '
+             'D2: generated scripts/stacks/versions are executed under chains of flag sets ordered by inclusion; success under a superset must imply success under every subset.',
+        note='The standard set is written out in the check (Core\'s STANDARD_SCRIPT_VERIFY_FLAGS). Flags without an effect in a stepping session are checked through the listing only. '
+             'Monotonicity for spend sessions is exercised under C03. One genuine defect was repaired by a fix: commit.',
+        design='5/C09'),
     'C10': dict(
         technique='constructive boundary-value property-based testing (Hypothesis) with a differential oracle and a directional oracle taken from the statement',
         text='For every limit and every way of reaching it the generator constructs scripts at L-1, L and L+1 for BASE / WITNESS_V0 / TAPSCRIPT; the debugger must '
